@@ -725,3 +725,68 @@ theorem build_wellformed {s : BState} {g : Graph} (hw : IdWFv (view s.graph)) (h
       · simp [toBond, hk]
 
 end Purr
+
+namespace Purr
+
+/-- the kinds of the atom events, as the builder records them -/
+def atomKinds : List Event → List AtomKind
+  | [] => []
+  | .root k :: es => k :: atomKinds es
+  | .extend _ k :: es => k.invert :: atomKinds es
+  | _ :: es => atomKinds es
+
+theorem modify_kinds (g : List Node) (i : Nat) (f : List Edge → List Edge) :
+    (g.modify i (fun n => { n with edges := f n.edges })).map Node.kind = g.map Node.kind := by
+  apply List.ext_getElem?
+  intro j
+  rw [List.getElem?_map, List.getElem?_map, List.getElem?_modify]
+  split <;> cases g[j]? <;> rfl
+
+theorem addEdge_kinds (g : List Node) (i : Nat) (e : Edge) : (addEdge g i e).map Node.kind = g.map Node.kind := by
+  unfold addEdge; exact modify_kinds g i (fun es => es ++ [e])
+
+theorem bstep_kinds {s s' : BState} {e : Event} (h : bstep s e = some s') :
+    s'.graph.map Node.kind = s.graph.map Node.kind ++ atomKinds [e] := by
+  cases e with
+  | root k => simp only [bstep] at h; cases h; simp [atomKinds]
+  | extend b k =>
+    simp only [bstep] at h
+    split at h
+    · cases h
+    · split at h
+      · cases h; simp [atomKinds, addEdge_kinds]
+      · cases h
+  | pop d => simp only [bstep] at h; cases h; simp [atomKinds]
+  | join b r =>
+    simp only [bstep] at h
+    split at h
+    · cases h
+    · split at h
+      · split at h
+        · split at h
+          · cases h
+          · split at h
+            · cases h
+            · split at h
+              · cases h; simp [atomKinds]
+              · split at h
+                · cases h; simp [atomKinds, addEdge_kinds, modify_kinds]
+                · cases h; simp [atomKinds]
+        · cases h; simp [atomKinds, addEdge_kinds]
+      · cases h
+
+theorem atomKinds_cons (e : Event) (es : List Event) : atomKinds (e :: es) = atomKinds [e] ++ atomKinds es := by
+  cases e <;> simp [atomKinds]
+
+theorem brun_kinds : ∀ (es : List Event) {s s' : BState}, brun s es = some s' →
+    s'.graph.map Node.kind = s.graph.map Node.kind ++ atomKinds es
+  | [], s, s', h => by simp [brun] at h; subst h; simp [atomKinds]
+  | e :: es, s, s', h => by
+    simp only [brun] at h
+    split at h
+    · rename_i s1 h1
+      rw [brun_kinds es h, bstep_kinds h1, atomKinds_cons e es, List.append_assoc]
+    · cases h
+
+
+end Purr
